@@ -32,6 +32,7 @@ from exactly_lib.util.file_utils.misc_utils import resolved_path_name
 from exactly_lib.util.name_and_value import NameAndValue
 from exactly_lib.util.process_execution.execution_elements import ProcessExecutionSettings
 from exactly_lib.util.symbol_table import SymbolTable
+from exactly_lib.util import verif_trace
 
 
 class Configuration(tuple):
@@ -368,6 +369,7 @@ class _PartialExecutor:
             self._test_case.assert_phase)
 
     def _cleanup_main(self, previous_phase: PreviousPhase):
+        verif_trace.emit('cleanup', lambda: dict(previous_phase=previous_phase.name))
         run_instructions_phase_step(
             phase_step.CLEANUP__MAIN,
             phase_step_executors.CleanupMainExecutor(
@@ -388,10 +390,12 @@ class _PartialExecutor:
 
     def _set_cwd_to_act_dir(self):
         os.chdir(str(self._sds.act_dir))
+        verif_trace.emit('chdir', lambda: dict(cwd=os.getcwd()))
 
     def _construct_and_set_sds(self):
         sds_root_dir_name = self.conf.exe_conf.sds_root_dir_resolver()
         self.__sandbox_directory_structure = construct_at(resolved_path_name(sds_root_dir_name))
+        verif_trace.emit('sds-create', lambda: dict(root=str(self.__sandbox_directory_structure.root_dir)))
 
     def _post_setup_validation_environments(self, phase: phase_identifier.Phase
                                             ) -> InstructionEnvPostSdsGetter:
